@@ -288,7 +288,8 @@ class Server(object):
         self.offline = {}
         self.log = []
         self.uploads = []     # (jid, node) every key upload as received
-        self.upload_policy = "result"   # result | error | drop  (what the next upload gets as answer)
+        self.upload_policy = "result"   # result | error | drop | stored_unanswered | held (what the next upload gets as answer)
+        self.held_results = []          # (jid, iq id) of uploads stored under the "held" policy: confirmed later, by release_results()
         self.label_next_as_broadcast = False   # deliver the next one-to-one message as <message from="status@broadcast" participant=sender>
         self.key_fetch_policy = []       # answers to the next key-bundle requests: "result" (default once exhausted) | "error" | "drop"
         self.withhold_success = set()    # jids whose next connection gets no <success> (the connection drops before the login completes)
@@ -333,6 +334,11 @@ class Server(object):
             if policy == "error":
                 self.q(jid, N("iq", {"type": "error", "from": "s.whatsapp.net", "id": node["id"]},
                               [N("error", {"code": "500", "text": "internal-server-error"})]))
+                return
+            if policy == "held":
+                # the server has the keys and hands them out; its confirmation is on its way (a slow link) and arrives later
+                self.store_keys(jid, node)
+                self.held_results.append((jid, node["id"]))
                 return
             self.store_keys(jid, node)
             self.q(jid, N("iq", {"type": "result", "from": "s.whatsapp.net", "id": node["id"]}))
@@ -407,6 +413,13 @@ class Server(object):
                 self.q(target, N("receipt", attrs, list(node.getAllChildren())), kind="receipt")
         elif node.tag in ("ack", "presence", "iq"):
             pass
+
+    def release_results(self):
+        """the confirmations held back so far are delivered (to connections that still exist), in order"""
+        held, self.held_results = self.held_results, []
+        for jid, iq_id in held:
+            self.q(jid, N("iq", {"type": "result", "from": "s.whatsapp.net", "id": iq_id}))
+        return held
 
     def store_keys(self, jid, node):
         k = dict(identity=node.getChild("identity").data, reg=node.getChild("registration").data,
